@@ -5,7 +5,7 @@ from lib import std_flow
 def run(ctx):
     ctx.assumptions += [
         "the real costs of Statement / Loop / FunctionInvocation are 1 (common/metering.go constants); the model is compared on exactly these three kinds",
-        "cap per real run (30 s CPU time of the child process, 300 s wall clock) is the observable for 'terminates'",
+        "cap per real run (120 s CPU time of the child process, 1200 s wall clock) is the observable for 'terminates'",
         "both engines use the configured call-depth limit (default 2000); boundary per engine profile",
     ]
     std_flow(ctx, "c30", coq_targets=["C30/Cases"],
